@@ -81,6 +81,9 @@ func (p *progGen) fields(n int, intsOnly bool) []fldJ {
 			f.Kind, f.Val = 2, p.r.Intn(50)
 		default:
 			f.Kind, f.Val = 3, p.r.Intn(50)
+			if p.r.Chance(1, 3) {
+				f.Val += 1000 // a long string: the accumulated context outgrows the pooled 1 KiB buffers
+			}
 		}
 		out = append(out, f)
 	}
@@ -609,6 +612,16 @@ func c07Exec(raw json.RawMessage) Result {
 			must(par.h.Handle(context.Background(), rec))
 		default:
 			panic("step " + st.S)
+		}
+		if mine != nil && st.S != "lazy" && len(op.Steps)%2 == 0 {
+			// the slice is the caller's again once the call returned: in every other program it is reused at once (overwritten
+			// with unrelated fields), as a caller deriving siblings from one scratch slice does. (Not after WithLazy, which keeps
+			// its arguments until first use by design.)
+			full := fs[:cap(fs)]
+			for i := range full {
+				full[i] = zap.String("scribbled", "x")
+			}
+			mine = nil
 		}
 		if mine != nil {
 			callerSlices = append(callerSlices, callerSlice{si, st.S, fs[:cap(fs)], mine})
